@@ -356,6 +356,8 @@ theorem fill_reaches (win : Win) (s : Screen) (hwf : s.WF) (c : Cell) (x y : Int
 
 /-! ### the window `New` creates -/
 
+theorem width_root (c r w h : Int) : (Win.root c r w h).width = w := rfl
+theorem height_root (c r w h : Int) : (Win.root c r w h).height = h := rfl
 theorem width_child (c r w h : Int) (p : Win) : (Win.child c r w h p).width = w := rfl
 theorem height_child (c r w h : Int) (p : Win) : (Win.child c r w h p).height = h := rfl
 
